@@ -689,7 +689,8 @@ def check_execution(system, an, marks_kept, run, ignore_eqs=frozenset()):
     # is an external equation on a cycle of the dependency graph (edges into ODEs are never followed)?
     def succ(e):
         return [d for d in an.eqs.get(e, {}).get("deps", []) if an.eqs.get(d, {}).get("type") != "ode"]
-    cyc_ext = any(an.eqs[e]["type"] == "external" and any(reaches([d], e) for d in succ(e)) for e in an.eq_order)
+    cyc_ext_eqs = [e for e in an.eq_order if an.eqs[e]["type"] == "external" and any(reaches([d], e) for d in succ(e))]
+    cyc_ext = bool(cyc_ext_eqs)
     for ph, idx, arrays in run["events"]:
         k = ext_by_index.get(idx)
         if k is None:
@@ -702,7 +703,8 @@ def check_execution(system, an, marks_kept, run, ignore_eqs=frozenset()):
             stats["dep_checks"] += 1
             at_call = slot(d, arrays)
             at_end = slot(d, run["ends"][ph])
-            cyclic = xeq is not None and reaches(dv["eqs"], xeq)
+            # the dependency is computed from this external variable, or from another external variable that lies on a cycle
+            cyclic = (xeq is not None and reaches(dv["eqs"], xeq)) or any(reaches(dv["eqs"], ce) for ce in cyc_ext_eqs)
             computed_here = dv["type"] in ("computed_constant", "algebraic", "external")
             bad = math.isnan(at_call) or not same(at_call, at_end, 0.0)
             if not bad:
@@ -879,7 +881,8 @@ def run(ctx):
         "the abstraction of C05: all units dimensionless, MathML restricted to eq / binary plus,minus,times / diff / ci / cn; "
         "equivalence classes are taken as given (Parser, areEquivalentVariables are C02's and C18's)",
         "equations are recognised in the AnalyserModel by the single <cn> each carries, EXTERNAL equations by the variable they compute",
-        "the model is the REPAIRED code (fixes/C20-voi-external.diff, ExternalDefs.voi_fix = true)",
+        "the model is the REPAIRED code (fixes/C20-voi-external.diff: ExternalDefs.voi_fix = true; "
+        "fixes/C20-nla-sibling-dependencies.diff: ExternalDefs.sibling_fix = true)",
         "emission order: the statements of the four generated methods are recognised by their left-hand sides "
         "(variables[i] / states[i] / rates[i] / findRoot<i> / externalVariable(..., i)); expression text is C03's",
         "execution (A-cc): the C compiler, libm, and a damped-Newton nlaSolve supplied by the check; NLA residuals are only "
@@ -896,7 +899,7 @@ def run(ctx):
     ctx.workdir = rundir
     rng = ctx.rng
     n_models = 40 if quick else 600
-    per_model = 25 if quick else 120
+    per_model = 25 if quick else 80
     n_exec_max = 1200 if quick else 9000
 
     # ---- models and their unmarked analysis
@@ -976,6 +979,14 @@ def run(ctx):
             cases.append({"kind": "variant-as-constant", "mi": mi, "system": sconst, "marks": [], "roles": [], "gen": False, "variant": name})
             cases.append({"kind": "variant-marked", "mi": mi, "system": sv, "marks": [(v, []) for v in vars_], "roles": [], "gen": True, "variant": name,
                           "group": i0})
+            # marking ANOTHER class, not linked to the unknown by any chain of equations, must not rescue the unknown
+            clsv = A.class_of(sv)
+            unknown_k = {clsv[tuple(int(z) for z in v.split("."))] for v in vars_}
+            lk = linked_classes(sv, unknown_k)      # a marked class that shares equations with the unknown may legitimately determine it
+            others = [x["var"] for k2, x in b.vars.items() if k2 not in unknown_k and k2 not in lk]
+            if others:
+                cases.append({"kind": "variant-other-marked", "mi": mi, "system": sv, "marks": [(rng.choice(others), [])], "roles": [], "gen": False,
+                              "variant": name, "group": i0, "unknown": sorted(unknown_k)})
     hist["unmarked_models_with_failing_equations"] = n_base_bad
     hist["unmarked_models_whose_program_does_not_build_or_run"] = n_base_fail
     ctx.log("models: %d valid of %d; cases: %d" % (sum(1 for b in bases if b.ok and b.valid), len(systems), len(cases)))
@@ -1020,6 +1031,7 @@ def run(ctx):
     late = []
     mismatch = 0
     mismatch_idx = []
+    emission_idx = []
     emission_mismatch = 0
     jobs = []
     for i, c in enumerate(cases):
@@ -1144,6 +1156,16 @@ def run(ctx):
         if i in exec_set and m.has_ext and base_bad.get(c["mi"]) is not None:
             jobs.append(i)
 
+    for i, c in enumerate(cases):
+        if c["kind"] != "variant-other-marked":
+            continue
+        u, m = ans[c["group"]], ans[i]
+        if not (u.ok and m.ok) or u.type != "underconstrained":
+            continue
+        still = {m.cls[tuple(int(z) for z in x.split(":")[2].split("."))] for x in m.errors() if x.startswith("E:UNUSED:")}
+        if m.valid or not set(c["unknown"]) <= still:
+            violation("C20 oracle: marking another variable rescues an unknown that is not marked (%s)" % m.type, "rescue_other",
+                      {"unmarked": payload(c["group"]), "other_marked": payload(i)})
     # ---- emission correspondence + execution
     def job(i):
         f = fields(impl_raw[i])
@@ -1165,6 +1187,7 @@ def run(ctx):
         for key in ("BI", "BC", "BR", "BV"):
             if key in mf and mf[key] != toks.get(key, ""):
                 emission_mismatch += 1
+                emission_idx.append((i, toks))
                 if len(late) < 5:
                     late.append(("C20 correspondence: emission order of method %s differs (code %s, model %s)" % (key, toks.get(key), mf[key]),
                                  "emission", payload(i, {"code_tokens": toks})))
@@ -1221,6 +1244,17 @@ def run(ctx):
                 "(defect C20-voi-marked-external: the variable of integration marked as external stays external)" % (nvoi, len(mismatch_idx)))
         hist["differences_explained_by_unrepaired_voi_defect"] = nvoi
         late = [(w + (" [= model of the unrepaired code: defect C20-voi-marked-external]" if c.get("impl") in unf else ""), n, c) for w, n, c in late]
+    if emission_idx:
+        unf = run_sharded(mdl, ["unfixed"], [mdl_lines[i] for i, _ in emission_idx], ctx.workdir, "unfixed_emission")
+        nsib = 0
+        for (i, toks), u in zip(emission_idx, unf):
+            uf = fields(u)
+            if strip_fields(u, ("BI", "BC", "BR", "BV", "ACY", "ORD")) == impl[i] and all(uf.get(k, "") == toks.get(k, "") for k in ("BI", "BC", "BR", "BV")):
+                nsib += 1
+        ctx.log("%d of the %d differing emission orders are exactly those of the model of the code WITHOUT fixes/C20-voi-external.diff and "
+                "fixes/C20-nla-sibling-dependencies.diff (defects C20-voi-marked-external: shifted indices; C20-nla-sibling-dependencies: the "
+                "dependencies of NLA siblings are not generated before findRoot)" % (nsib, len(emission_idx)))
+        hist["emission_differences_explained_by_the_unrepaired_defects"] = nsib
     for what, name, content in late:
         violation(what, name, content)
     if mismatch or emission_mismatch:
